@@ -37,4 +37,95 @@ Section InterpSrcThm.
     dsl2. lens. apply sumn_ext2; [reflexivity|]. intros i Hi.
     unfold w_left, w_right, w_of, indb, ind. destruct i as [|i]; brk; idx_eq xpf; fin2.
   Qed.
+
+  Lemma dot_interp_matches m (xpf fpf : nat -> F) x :
+    dot_interp_src x (S (S m), xpf) (S (S m), fpf) = dot_interp (S (S m)) xpf fpf x.
+  Proof.
+    unfold dot_interp_src, dot_interp, dot_weights, base_weights, bracket, clipn, a_clipn.
+    rewrite !a_count_ssr. cbn [fst snd]. cbv zeta.
+    generalize (Nat.min (Nat.max (ssr (S (S m)) xpf x) 1) (S (S m) - 1)). intros u.
+    dsl2. lens. apply sumn_ext2; [reflexivity|]. intros i Hi.
+    unfold w_left, w_right, w_of, indb, ind. destruct i as [|i]; brk; tests; idx_eq xpf; fin2.
+  Qed.
+
+  (** _extrapolate_left / _right / _both on data without missing values *)
+  Lemma extrapolate_left_matches m (y : nat -> F) :
+    fst (extrapolate_left_src (S (S m), y)) = S (S (S m)) /\
+    forall i, (i < S (S (S m)))%nat -> snd (extrapolate_left_src (S (S m), y)) i = extr_left eLF y i.
+  Proof.
+    split; [dsl2; lens; reflexivity|]. intros i Hi. dsl2. lens. unfold extr_left, eLF.
+    destruct i as [|i]; brk; idx_eq y; fin2.
+  Qed.
+
+  Lemma extrapolate_right_matches m (y : nat -> F) :
+    fst (extrapolate_right_src (S (S m), y)) = S (S (S m)) /\
+    forall i, (i < S (S (S m)))%nat -> snd (extrapolate_right_src (S (S m), y)) i = extr_right eRF (S (S m)) y i.
+  Proof.
+    split; [dsl2; lens; reflexivity|]. intros i Hi. dsl2. lens. unfold extr_right, eRF. lens.
+    brk; idx_eq y; fin2.
+  Qed.
+
+  Lemma extrapolate_both_matches m (y : nat -> F) :
+    fst (extrapolate_both_src (S (S m), y)) = S (S (S (S m))) /\
+    forall i, (i < S (S (S (S m))))%nat ->
+      snd (extrapolate_both_src (S (S m), y)) i = extr_both eLF eRF (S (S m)) y i.
+  Proof.
+    split; [dsl2; lens; reflexivity|]. intros i Hi. dsl2. lens.
+    unfold extr_both, extr_left, extr_right, eLF, eRF. lens.
+    destruct i as [|i]; brk; idx_eq y; fin2.
+  Qed.
+
+  (** the padding loop only looks at the first n entries *)
+  Lemma pad_x_ext k : forall n (y y' : nat -> F), (2 <= n)%nat -> (forall i, (i < n)%nat -> y i = y' i) ->
+    forall i, (i < n + 2 * k)%nat -> pad_x k n y i = pad_x k n y' i.
+  Proof.
+    unfold pad_x. induction k as [|k IH]; intros n y y' Hn H i Hi; cbn [pad]; [apply H; lia|].
+    apply IH; [lia| |lia]. intros j Hj. unfold extr_both, extr_left, extr_right.
+    destruct j as [|j]; brk; repeat rewrite H by lia; reflexivity.
+  Qed.
+
+  (** the loop `for _ in range(k): y = _extrapolate_both(y)` *)
+  Lemma safe_extrap_loop_matches k : forall m (y : nat -> F),
+    fst (Nat.iter k extrapolate_both_src (S (S m), y)) = (S (S m) + 2 * k)%nat /\
+    forall i, (i < S (S m) + 2 * k)%nat ->
+      snd (Nat.iter k extrapolate_both_src (S (S m), y)) i = pad_x k (S (S m)) y i.
+  Proof.
+    induction k as [|k IH]; intros m y.
+    - cbn [Nat.iter fst snd]. split; [lia|]. intros i Hi. reflexivity.
+    - rewrite Nat.iter_succ_r. destruct (extrapolate_both_matches m y) as [L P].
+      destruct (extrapolate_both_src (S (S m), y)) as [n2 y2]. cbn [fst snd] in L, P. subst n2.
+      destruct (IH (S (S m)) y2) as [L2 P2]. split; [rewrite L2; lia|].
+      intros i Hi. rewrite P2 by lia. unfold pad_x. cbn [pad]. fold (@pad_x F o).
+      replace (S (S m) + 2)%nat with (S (S (S (S m)))) by lia.
+      apply pad_x_ext; [lia| |lia]. exact P.
+  Qed.
+
+  Lemma safe_extrap_matches k m (y : nat -> F) :
+    (fst (safe_extrap_xp_src k (S (S m), y)) = (S (S m) + 2 * k)%nat /\
+     forall i, (i < S (S m) + 2 * k)%nat -> snd (safe_extrap_xp_src k (S (S m), y)) i = pad_x k (S (S m)) y i) /\
+    (fst (safe_extrap_fp_src k (S (S m), y)) = (S (S m) + 2 * k)%nat /\
+     forall i, (i < S (S m) + 2 * k)%nat -> snd (safe_extrap_fp_src k (S (S m), y)) i = pad_x k (S (S m)) y i).
+  Proof. split; exact (safe_extrap_loop_matches k m y). Qed.
+
+  (** get_surface_pressure, one column *)
+  Lemma surface_pressure_matches m (lev phi : nat -> F) oro g :
+    surface_pressure_src (S (S m), lev) (S (S m), phi) oro g = surface_pressure (S (S m)) lev phi oro g.
+  Proof.
+    unfold surface_pressure_src, a_map. cbn [fst snd]. rewrite lin_extrap_matches.
+    unfold surface_pressure, rel_height. reflexivity.
+  Qed.
+
+  (** HybridCoordinates.get_sigma_boundaries / get_sigma_centers *)
+  Lemma hyb_sigma_boundaries_matches N (a b : nat -> F) sp :
+    fst (hyb_sigma_boundaries_src (N, a) (N, b) sp) = N /\
+    forall i, snd (hyb_sigma_boundaries_src (N, a) (N, b) sp) i = hyb_sigma_boundaries a b sp i.
+  Proof. split; [dsl2; lens; reflexivity|]. intros i. dsl2. unfold hyb_sigma_boundaries. fin2. Qed.
+
+  Lemma hyb_sigma_centers_matches n (a b : nat -> F) sp :
+    fst (hyb_sigma_centers_src (S n, a) (S n, b) sp) = n /\
+    forall i, (i < n)%nat -> snd (hyb_sigma_centers_src (S n, a) (S n, b) sp) i = hyb_sigma_centers a b sp i.
+  Proof.
+    split; [dsl2; lens; lia|]. intros i Hi. dsl2. lens. unfold hyb_sigma_centers, hyb_sigma_boundaries.
+    idx_eq a; idx_eq b; fin2.
+  Qed.
 End InterpSrcThm.
